@@ -362,3 +362,28 @@ Qed.
 
 Lemma Inv_reachable maxassets c ops : Forall op_wf ops -> Inv (run maxassets (winit c) ops).
 Proof. apply Inv_run. apply Inv_winit. Qed.
+
+(* ------------------------------------------------------------------ transaction groups *)
+Lemma Inv_run_group maxassets g : forall w k, Inv w -> Forall op_wf g ->
+  Inv (fst (fst (run_group maxassets w g k))).
+Proof.
+  induction g as [|o g IH]; intros w k I F; cbn [run_group]; [exact I|].
+  inversion F as [|o' g' Fo Fg]; subst.
+  pose proof (Inv_step maxassets w o I Fo) as I1.
+  destruct (step maxassets w o) as [w1 [v|e]] eqn:E; cbn [fst] in I1.
+  - specialize (IH w1 (k + 1) I1 Fg).
+    destruct (run_group maxassets w1 g (k + 1)) as [[w2 r] k2]. exact IH.
+  - exact I.
+Qed.
+
+Lemma Inv_gstep maxassets w g : Inv w -> Forall op_wf g -> Inv (fst (fst (gstep maxassets w g))).
+Proof.
+  intros I F. unfold gstep. pose proof (Inv_run_group maxassets g w 0 I F) as H.
+  destruct (run_group maxassets w g 0) as [[w' r] k]. destruct r; cbn [fst] in *; auto.
+Qed.
+
+Lemma Inv_grun maxassets gs : forall w, Inv w -> Forall (Forall op_wf) gs -> Inv (grun maxassets w gs).
+Proof.
+  induction gs as [|g gs IH]; intros w I F; cbn [grun]; auto.
+  inversion F; subst. apply IH; auto. apply Inv_gstep; auto.
+Qed.
